@@ -362,6 +362,10 @@ func (d *Device) handleOpenrgb(ctx context.Context, wg *sync.WaitGroup) {
 		log.Info(fmt.Sprintf("[OpenRGB] Cannot connect to server: %s", err), d.logFields(logger.Debug)...)
 		return
 	}
+	if c == nil {
+		// the time for connecting ran out before a single attempt was made (the process did not run for a while)
+		return
+	}
 
 	// a server that stops answering would keep this goroutine (and with it ProcessEvents) blocked in a read or write
 	// forever: once the device is gone, a call to the server that has been going on for half a second is ended by closing
